@@ -74,6 +74,13 @@ class IVector:
         self.items = tuple(items)
 
 
+class ByteVec:
+    __slots__ = ("items",)
+
+    def __init__(self, items):
+        self.items = list(items)
+
+
 class Box:
     __slots__ = ("value",)
 
@@ -244,6 +251,8 @@ def canon(v, depth=0):
         return "(V" + "".join(" " + canon(x, depth + 1) for x in v.items) + ")"
     if isinstance(v, Box):
         return "(B %s)" % canon(v.value, depth + 1)
+    if isinstance(v, ByteVec):
+        return "(BV" + "".join(" %d" % x for x in v.items) + ")"
     if isinstance(v, HashMap):
         ents = sorted("(%s %s)" % (canon(k, depth + 1), canon(x, depth + 1)) for k, x in v.d.values())
         return "(H" + "".join(" " + e for e in ents) + ")"
@@ -823,7 +832,27 @@ def sf_struct(m, x, env, k):
     return ("ret", VOID, k)
 
 
+_PCOUNT = [0]
+
+
+def sf_parameterize(m, x, env, k):
+    """Steel's own expansion (scheme/modules/parameters.scm): one dynamic-wind per binding, the old value read once
+    outside, the new value expression evaluated by the before thunk."""
+    binds, body = x[1], x[2:]
+    if not binds:
+        return ("eval", [Sym("begin")] + body, env, k)
+    var, val = binds[0]
+    _PCOUNT[0] += 1
+    old = Sym("#:old%d" % _PCOUNT[0])
+    lam = Sym("lambda")
+    return ("eval", [Sym("let"), [[old, [var]]],
+                     [Sym("dynamic-wind"), [lam, [], [var, val]],
+                      [lam, [], [Sym("parameterize"), binds[1:]] + body],
+                      [lam, [], [var, old]]]], env, k)
+
+
 SPECIAL = {
+    "parameterize": sf_parameterize,
     "quote": sf_quote, "if": sf_if, "define": sf_define, "lambda": sf_lambda, "set!": sf_set, "begin": sf_begin,
     "let": sf_let, "let*": sf_letstar, "letrec": sf_letrec, "letrec*": sf_letrec, "cond": sf_cond, "and": sf_and,
     "or": sf_or, "when": sf_when, "unless": sf_unless, "case": sf_case, "do": sf_do,
@@ -982,7 +1011,7 @@ def install_prims(m):
             return a == b
         if isinstance(a, Char) and isinstance(b, Char):
             return a == b
-        if isinstance(a, (MVector, Box, StructInst, Closure)) or isinstance(b, (MVector, Box, StructInst, Closure)):
+        if isinstance(a, (MVector, Box, StructInst, Closure, ByteVec)) or isinstance(b, (MVector, Box, StructInst, Closure, ByteVec)):
             return a is b
         raise Unsupported("eq? on %r" % type(a))
     defprim("eq?", eqp, 2)
@@ -1138,6 +1167,89 @@ def install_prims(m):
     defprim("vector->list", lambda v: py_to_list(list(vec(v).items)), 1)
     defprim("list->vector", lambda l: IVector(plist(l)), 1)   # pinned: immutable in Steel
     defprim("vector?", lambda v: isinstance(v, (MVector, IVector)), 1)
+
+    def opt_bounds(rest, n):
+        need(len(rest) <= 2, "too many arguments")
+        for x in rest:
+            exact_int(x)
+        start = rest[0] if len(rest) > 0 else 0
+        end = rest[1] if len(rest) > 1 else n
+        need(start >= 0 and end >= 0, "start and end must be non-negative")
+        need(end <= n, "end bound is out of range")
+        need(start <= end, "start bound cannot be greater than end bound")
+        return start, end
+
+    def vector_copy_bang(dest, dest_start, src, *rest):
+        # Steel: copies as many elements as fit (the shorter of the source range and the room in dest)
+        need(isinstance(dest, MVector), "vector-copy! expects a mutable destination")
+        vec(src)
+        exact_int(dest_start)
+        need(dest_start >= 0, "dest-start")
+        start, end = opt_bounds(rest, len(src.items))
+        need(dest_start <= len(dest.items), "dest-start must be within the destination")
+        buf = list(src.items[start:end])
+        for j, x in enumerate(buf):
+            if dest_start + j >= len(dest.items):
+                break
+            dest.items[dest_start + j] = x
+        return VOID
+    defprim("vector-copy!", vector_copy_bang, 3, 5)
+
+    def vector_fill_bang(v, x, *rest):
+        need(isinstance(v, MVector), "vector-fill! expects a mutable vector")
+        start, end = opt_bounds(rest, len(v.items))
+        for j in range(start, end):
+            v.items[j] = x
+        return VOID
+    defprim("vector-fill!", vector_fill_bang, 2, 4)
+
+    # byte vectors
+    def byte(x):
+        need(isinstance(x, int) and not isinstance(x, bool) and 0 <= x <= 255, "expected a byte")
+        return x
+
+    def bv(v):
+        need(isinstance(v, ByteVec), "expected a byte vector")
+        return v
+    defprim("bytes", lambda *a: ByteVec([byte(x) for x in a]), 0, None)
+    defprim("bytevector", lambda *a: ByteVec([byte(x) for x in a]), 0, None)
+    defprim("bytes?", lambda v: isinstance(v, ByteVec), 1)
+    defprim("bytes-length", lambda v: len(bv(v).items), 1)
+
+    def bytes_ref(v, i):
+        bv(v)
+        exact_int(i)
+        need(0 <= i < len(v.items), "index out of bounds")
+        return v.items[i]
+    defprim("bytes-ref", bytes_ref, 2)
+
+    def bytes_set(v, i, x):
+        bv(v)
+        exact_int(i)
+        byte(x)
+        need(0 <= i < len(v.items), "index out of bounds")
+        v.items[i] = x
+        return VOID
+    defprim("bytes-set!", bytes_set, 3)
+
+    def bytes_push(v, x):
+        bv(v).items.append(byte(x))
+        return VOID
+    defprim("bytes-push!", bytes_push, 2)
+    defprim("bytes->list", lambda v: py_to_list(list(bv(v).items)), 1)
+    defprim("list->bytes", lambda l: ByteVec([byte(x) for x in plist(l)]), 1)
+    defprim("bytes-append", lambda *a: ByteVec([x for v in a for x in bv(v).items]), 0, None)
+
+    def bytes_copy(v, *rest):
+        bv(v)
+        need(len(rest) <= 2, "too many arguments")
+        for x in rest:
+            exact_int(x)
+        start = rest[0] if rest else 0
+        end = rest[1] if len(rest) > 1 else len(v.items)
+        need(0 <= start <= end <= len(v.items), "bytes-copy range")
+        return ByteVec(v.items[start:end])
+    defprim("bytes-copy", bytes_copy, 1, 3)
 
     # boxes
     defprim("box", lambda v: Box(v), 1)
@@ -1487,6 +1599,7 @@ def parse(text):
 
 
 HOF_SOURCE = """
+(define (make-parameter v) (let ((cell (box v))) (lambda args (if (null? args) (unbox cell) (set-box! cell (car args))))))
 (define (map f l . more)
   (if (null? more)
       (let loop ((l l) (acc (quote ())))
